@@ -59,3 +59,45 @@ c04_beta!(c04_beta_f64, f64);
 //@ bounds: every pair of f32 bit patterns
 //@ assumes: libm::sqrtf by contract
 c04_beta!(c04_beta_f32, f32);
+
+// ------------------------------------------------------------------------------------------
+// C03: Beta samples lie in [0, 1], never NaN
+// ------------------------------------------------------------------------------------------
+macro_rules! c03_beta {
+    ($name:ident, $f:ty, $min:expr) => {
+        vproof! {
+            #[kani::unwind(3)]
+            fn $name() {
+                let alpha: $f = kani::any();
+                let beta: $f = kani::any();
+                let d = match Beta::<$f>::new(alpha, beta) { Ok(d) => d, Err(_) => return };
+                kani::assume(alpha >= $min && alpha <= 1e4 && beta >= $min && beta <= 1e4);
+                // one Cheng BB / BC trial: two Open01 draws
+                let mut rng = SymRng::new(2);
+                let x: $f = d.sample(&mut rng);
+                vassert!(x == x, "Beta sample is NaN");
+                vassert!(x >= 0.0 && x <= 1.0, "Beta sample outside [0, 1]");
+                vassert!(rng.pos == 2, "Beta: a trial consumes two words");
+                kani::cover!(alpha > 1.0 && beta > 1.0, "BB");
+                kani::cover!(alpha < 1.0, "BC");
+                kani::cover!(x == 1.0, "upper end point");
+            }
+        }
+    };
+}
+//@ id: c03_beta_f64
+//@ prop: C03
+//@ tier: quick
+//@ cap: 1800
+//@ funcs: Beta::<f64>::new; Beta::<f64>::sample (Cheng BB and BC trial, w == inf guard, reflection)
+//@ bounds: alpha, beta in [1e-3, 1e4]; first trial (2 words)
+//@ assumes: libm::{log,exp,sqrt} by contract
+c03_beta!(c03_beta_f64, f64, 1e-3);
+//@ id: c03_beta_f32
+//@ prop: C03
+//@ tier: quick
+//@ cap: 1800
+//@ funcs: Beta::<f32>::new; Beta::<f32>::sample
+//@ bounds: alpha, beta in [1e-2, 1e4]; first trial (2 words), all 2^23 values of each Open01 draw
+//@ assumes: libm::{logf,expf,sqrtf} by contract
+c03_beta!(c03_beta_f32, f32, 1e-2);
